@@ -4,6 +4,10 @@
 //   S  <kind I|S|C|P> <n> <pw> <comb> <chain_blocks> <chain_mem> <fill F|E> <buf> <tot> <lazy> <mode O|M|S> recs...
 //   SF <same 11 parameters> <infile> <outfile>          records as raw bytes (fill F only); answer: OK <ret> <#records>
 //   OFF l1 l2 ... [R m1 ...]                              the real util::stream::Offsets on a temp file
+//   PR <file hex|-> <off> <size> <d3,i,d1,...>            util::ErsatzPRead with the pread return lengths dictated through
+//                                                         harness/shim/io_shim.c (must be preloaded; NOSHIM otherwise)
+//   KILLER <n>                                            McIlroy's adversary run against this library's std::sort: the
+//                                                         permutation of 0..n-1 that drives introsort into its heapsort fallback
 #include "util/stream/sort.hh"
 #include "util/stream/chain.hh"
 #include "util/stream/stream.hh"
@@ -20,6 +24,9 @@
 #include <string>
 #include <vector>
 #include <stdint.h>
+#include <algorithm>
+#include <dlfcn.h>
+#include <errno.h>
 #include <signal.h>
 #include <sys/wait.h>
 #include <unistd.h>
@@ -281,6 +288,66 @@ std::string HandleOffsets(std::istringstream &in) {
   return res;
 }
 
+std::string HandlePRead(std::istringstream &in) {
+  typedef void (*arm_t)(int, const char *);
+  typedef int (*disarm_t)(void);
+  arm_t arm = (arm_t)dlsym(RTLD_DEFAULT, "io_shim_arm");
+  disarm_t disarm = (disarm_t)dlsym(RTLD_DEFAULT, "io_shim_disarm");
+  if (!arm || !disarm) return "NOSHIM";
+  std::string file, off_s, size_s, script;
+  in >> file >> off_s >> size_s >> script;
+  std::vector<uint8_t> bytes;
+  if (file != "-") for (size_t i = 0; i + 1 < file.size(); i += 2) bytes.push_back((uint8_t)strtoul(file.substr(i, 2).c_str(), NULL, 16));
+  util::scoped_fd fd(util::MakeTemp(g_tmp));
+  if (!bytes.empty()) util::WriteOrThrow(fd.get(), &bytes[0], bytes.size());
+  const size_t size = hx(size_s);
+  std::vector<uint8_t> buf(size + 8, 0xEE);
+  for (size_t i = 0; i < script.size(); ++i) if (script[i] == ',') script[i] = ' ';
+  arm(fd.get(), script.c_str());
+  std::string status = "OK";
+  try { util::ErsatzPRead(fd.get(), &buf[0], size, hx(off_s)); }
+  catch (const util::EndOfFileException &e) { status = "EOF"; }
+  catch (const std::exception &e) { status = "THROW"; }
+  int consumed = disarm();
+  std::ostringstream o;
+  o << status;
+  if (status == "OK") {
+    o << ' ';
+    if (!size) o << '-';
+    char b[4];
+    for (size_t i = 0; i < size; ++i) { snprintf(b, sizeof b, "%02x", buf[i]); o << b; }
+    for (size_t i = size; i < buf.size(); ++i) if (buf[i] != 0xEE) { o << " WROTE-PAST-BUFFER"; break; }
+  }
+  o << ' ' << std::dec << (consumed & ~(1 << 30));
+  if (consumed & (1 << 30)) o << " SCRIPT-EXHAUSTED";
+  return o.str();
+}
+
+// M. D. McIlroy, "A Killer Adversary for Quicksort": the comparison function decides the order of the items lazily so
+// that every pivot the sort picks turns out to be (nearly) the smallest remaining item.
+struct Adversary {
+  std::vector<int> val; int gas, nsolid, candidate;
+  bool less(int x, int y) {
+    if (val[x] == gas && val[y] == gas) { if (x == candidate) val[x] = nsolid++; else val[y] = nsolid++; }
+    if (val[x] == gas) candidate = x; else if (val[y] == gas) candidate = y;
+    return val[x] < val[y];
+  }
+};
+struct AdvLess { Adversary *a; bool operator()(int x, int y) const { return a->less(x, y); } };
+
+std::string HandleKiller(std::istringstream &in) {
+  std::string n_s; in >> n_s;
+  const int n = (int)hx(n_s);
+  Adversary a; a.val.assign(n, n - 1); a.gas = n - 1; a.nsolid = 0; a.candidate = 0;
+  std::vector<int> ptr(n);
+  for (int i = 0; i < n; ++i) ptr[i] = i;
+  AdvLess l; l.a = &a;
+  std::sort(ptr.begin(), ptr.end(), l);
+  std::ostringstream o;
+  for (int i = 0; i < n; ++i) o << (i ? " " : "") << std::hex << a.val[i];
+  return o.str();
+}
+
 std::string Handle(const std::string &line) {
   std::istringstream in(line);
   std::string cmd; in >> cmd;
@@ -288,6 +355,8 @@ std::string Handle(const std::string &line) {
     if (cmd == "S") return HandleSort(in, false);
     if (cmd == "SF") return HandleSort(in, true);
     if (cmd == "OFF") return HandleOffsets(in);
+    if (cmd == "PR") return HandlePRead(in);
+    if (cmd == "KILLER") return HandleKiller(in);
   } catch (const std::exception &e) {
     std::string w = e.what(); for (size_t i = 0; i < w.size(); ++i) if (w[i] == '\n') w[i] = ' ';
     return "EXCEPTION " + w;
@@ -304,11 +373,17 @@ int main() {
     fflush(stdout);
     pid_t pid = fork();
     if (pid == 0) {
-      alarm(line.compare(0, 3, "SF ") == 0 ? 900 : 15);   // a hang (e.g. a merge loop that never terminates) is an observation
+      const char *al = getenv("VERIF_ALARM");      // slower variants (ASan, 1-byte reads) get more time
+      alarm(line.compare(0, 3, "SF ") == 0 ? 900 : (al ? atoi(al) : 15));   // a hang (e.g. a merge loop that never terminates) is an observation
       std::string r = Handle(line);
       r += '\n';
       size_t done = 0;
-      while (done < r.size()) { ssize_t w = write(1, r.data() + done, r.size() - done); if (w <= 0) break; done += w; }
+      while (done < r.size()) {      // short writes and EINTR happen when the I/O shim is preloaded
+        ssize_t w = write(1, r.data() + done, r.size() - done);
+        if (w < 0 && errno == EINTR) continue;
+        if (w <= 0) break;
+        done += w;
+      }
       _exit(0);
     }
     int status = 0;
